@@ -117,6 +117,12 @@ def verify_function(qualname, opts=None):
         mi, fn = source.find_function(qualname)
         rep.sha = mi.sha
         rep.line = fn.lineno
+        # a decorator can change what calling the function does (memoisation keeps results across calls, ...): the
+        # body alone is then not the function - only the decorators the engine gives a meaning to are accepted
+        for d in fn.decorator_list:
+            dt = ast.unparse(d)
+            if not (dt in ("property", "cached_property", "functools.cached_property", "staticmethod", "classmethod", "contextmanager", "contextlib.contextmanager") or dt.endswith(".setter")):
+                raise SpecInapplicable(f"{con.short} is decorated with @{dt}: the contract was written for the undecorated function")
         if getattr(con, "custom", None) is not None:
             # contract with its own obligation generator over the function's AST (idiom-specific rule)
             from .engine import Obligation as _Ob
